@@ -42,8 +42,11 @@ def engine_factory(name: str):
 # property -> list of (engine, quick runs, thorough runs)
 PLAN: dict[str, list[tuple[str, int, int]]] = {
     'C07': [('storesim', 5000, 50000), ('docsim', 600, 8000)],
-    'C08': [('storesim', 4000, 40000), ('docsim', 1200, 15000)],
-    'C19': [('docsim', 2500, 30000), ('storesim', 1500, 15000)],
+    'C08': [('storesim', 4000, 40000), ('docsim', 1200, 15000), ('edsim', 600, 6000)],
+    'C19': [('docsim', 2000, 30000), ('storesim', 1500, 15000), ('exprsim', 3000, 30000)],
+    'C12': [('toksim', 60000, 600000)],
+    'C13': [('exprsim', 8000, 100000)],
+    'C16': [('edsim', 2500, 30000)],
     'C02': [('docsim', 3000, 40000)],
     'C03': [('docsim', 3000, 40000)],
     'C04': [('docsim', 3000, 40000)],
@@ -64,6 +67,16 @@ RULES = {
     'storesim': 'one run = (load factor, initial token texts, op list) drawn from sha256(VERIF_SEED, property, run index); '
                 'a run is non-trivial when it executed >= 1 store operation; distinct = distinct hash of the '
                 '(operation kind, single/multi-block state) sequence plus load factor',
+    'docsim': 'one run = (load factor, attribution mode, generated document, disabled op classes, concrete path-addressed op/fault list) drawn from '
+              'sha256(VERIF_SEED, property, run index); non-trivial = executed >= 1 operation of a class relevant to the property; distinct = '
+              'distinct hash of the (operation kind @ target class.member) sequence',
+    'toksim': 'one run = (token class, constructor route, free/attached, neighbours, assignment list); non-trivial = constructor clause evaluated; '
+              'distinct = distinct hash of (class, route, op kinds, final raw text)',
+    'exprsim': 'one run = (document with expressions, free expressions, operator applications); non-trivial = >= 1 operator applied; distinct = '
+               'distinct hash of the (mode, operator, attached/free operands) sequence',
+    'edsim': 'one run = a world (files, include graph, line ends), an entry (api, file, spelling, str/Path, cwd), a glob permutation and a scripted '
+             'body, executed once plainly and once per crash point k with a raise before step k; non-trivial = reached the with-block or an entry '
+             'verdict; distinct = distinct hash of (entry, body op kinds, file names)',
 }
 
 
